@@ -39,6 +39,8 @@ type spec struct {
 	salt   []byte
 	iter   int
 	tlsVer uint16
+	ext    string // extensions the reference SCRAM server appends to its server-first-message
+	prefix string // put in front of the server-first-message (mandatory extension "m=..,")
 }
 
 type reply struct {
@@ -177,7 +179,7 @@ func newRef(sp *spec, srvState *tls.ConnectionState) *ref {
 		if nu, ok := saslx.Opaque(sp.user); ok {
 			acct = string(nu)
 		}
-		s.scram = &saslx.ScramServer{Hash: hashOf(sp.mech), Plus: isPlus(sp.mech), NonceSuffix: "c14srv",
+		s.scram = &saslx.ScramServer{Hash: hashOf(sp.mech), Plus: isPlus(sp.mech), NonceSuffix: "c14srv", FirstExt: sp.ext, FirstPrefix: sp.prefix,
 			Lookup: func(u string) (saslx.Stored, bool) { return st, u == acct }}
 		if srvState != nil {
 			s.scram.CBType, s.scram.CBData, _ = saslx.ChannelBinding(*srvState)
@@ -285,6 +287,12 @@ func runX(r *hx.Run, c hx.Case) {
 	sp.tlsVer = uint16(v)
 	retry := c.Args[8] == "1"
 	compare := c.Args[9] == "1"
+	if len(c.Args) > 10 {
+		sp.ext = string(hx.UnHex(c.Args[10]))
+	}
+	if len(c.Args) > 11 {
+		sp.prefix = string(hx.UnHex(c.Args[11]))
+	}
 	scArg := hx.Hex([]byte(strings.Join(c.Args, " ")))
 	var cst, sst *tls.ConnectionState
 	if isPlus(sp.mech) {
@@ -320,6 +328,12 @@ func runX(r *hx.Run, c hx.Case) {
 		valid = false
 	}
 	if sp.mech == "xoauth2" && strings.Contains(sp.user+sp.secret, "\x01") {
+		valid = false
+	}
+	if sp.prefix != "" && isScram(sp.mech) {
+		if class == "OK" {
+			r.Fail(c.ID, "mandatory-extension-accepted", fmt.Sprintf("%s: server-first with the unknown mandatory extension %q was accepted", sp.mech, sp.prefix))
+		}
 		valid = false
 	}
 	if valid {
@@ -364,7 +378,7 @@ func runX(r *hx.Run, c hx.Case) {
 	mc := hx.Case{ID: c.ID, Kind: "auth14", Args: append(append([]string{"0", replyArg(replies)}, margs...), scArg)}
 	r.Add(mc, fmt.Sprintf("%s S:%s", hx.Hex([]byte(class)), hexLines(lines)), true)
 	// the Gallina reference server (Sasl.scram_server_first / _final) against the Go reference server of this exchange
-	if isScram(sp.mech) && len(lines) >= 3 && len(replies) >= 3 && uok && pok {
+	if isScram(sp.mech) && sp.prefix == "" && len(lines) >= 3 && len(replies) >= 3 && uok && pok {
 		cf, ok1 := saslx.UnB64(lines[1])
 		cfin, ok2 := saslx.UnB64(lines[2])
 		srvSecret := sp.secret
@@ -389,7 +403,7 @@ func runX(r *hx.Run, c hx.Case) {
 				}
 			}
 			r.Dist["refserver"]++
-			r.Add(hx.Case{ID: c.ID + "s", Kind: "srv", Args: []string{sp.mech, cbn, cbd, hx.Hex([]byte("c14srv")), hx.Hex(acct), hx.Hex(nsp),
+			r.Add(hx.Case{ID: c.ID + "s", Kind: "srv", Args: []string{sp.mech, cbn, cbd, hx.Hex([]byte("c14srv")), hx.Hex([]byte(sp.ext)), hx.Hex(acct), hx.Hex(nsp),
 				hx.Hex(sp.salt), strconv.Itoa(sp.iter), hx.Hex(cf), hx.Hex(cfin), scArg}}, o, true)
 		}
 	}
@@ -524,7 +538,7 @@ func runStale(r *hx.Run, c hx.Case) {
 					o = hx.Hex(sf) + " " + hx.Hex(fin)
 				}
 			}
-			r.Add(hx.Case{ID: c.ID + "s", Kind: "srvstale", Args: []string{sp.mech, hx.Hex([]byte(t)), hx.Hex(d), hx.Hex([]byte("c14srv")), hx.Hex([]byte(sp.user)),
+			r.Add(hx.Case{ID: c.ID + "s", Kind: "srvstale", Args: []string{sp.mech, hx.Hex([]byte(t)), hx.Hex(d), hx.Hex([]byte("c14srv")), "~", hx.Hex([]byte(sp.user)),
 				hx.Hex([]byte(sp.secret)), hx.Hex(sp.salt), strconv.Itoa(sp.iter), hx.Hex(cf), hx.Hex(cfin), hx.Hex([]byte(strings.Join(c.Args, " ")))}}, o, true)
 		}
 	}
@@ -677,8 +691,16 @@ func Run(r *hx.Run, replay []hx.Case) {
 		if r.Rng.Intn(4) == 0 {
 			retry = "1"
 		}
+		// RFC 5802 section 7: the server may append extensions to its first message; "m=" in front is a mandatory extension
+		ext, prefix := "", ""
+		if isScram(m) {
+			ext = []string{"", ",x-ext=1", ",a=b,c=d", ",x=", "", ",z=" + strings.Repeat("y", 40), ",x-ext=1"}[r.Rng.Intn(7)]
+			if r.Rng.Intn(12) == 0 {
+				prefix = "m=1,"
+			}
+		}
 		runCase(r, hx.Case{ID: r.NewID(), Kind: "x", Args: []string{m, right, hx.Hex([]byte(user)), hx.Hex([]byte(secret)), hx.Hex([]byte(ident)),
-			hx.Hex(randBytes(r, 1+r.Rng.Intn(64))), strconv.Itoa(iter), strconv.Itoa(ver), retry, "1"}})
+			hx.Hex(randBytes(r, 1+r.Rng.Intn(64))), strconv.Itoa(iter), strconv.Itoa(ver), retry, "1", hx.Hex([]byte(ext)), hx.Hex([]byte(prefix))}})
 	}
 	// reuse of one Auth value for 2 and 3 exchanges (new connection each): every mechanism x first exchange(s)
 	// {completed, rejected with 535 / 454 at step k, connection dropped at step k, for every step k} x {2, 3 exchanges}
